@@ -164,10 +164,29 @@ static void id_case(uint64_t idx, void *ctx)
     mc_nontrivial();
 }
 
+/* ---- buffers whose lengths differ by 2^31 and more (plain build: the big block is calloc'ed and never touched) */
+static const long long HUGE_DIFF[] = { 2147483647LL, 2147483648LL, 2147483649LL, 4294967296LL, 4294967297LL };
+static void hm_desc(uint64_t idx, void *ctx, char *b, size_t n) { (void) ctx; snprintf(b, n, "mbuff comp of a 1-byte buffer {0} with a buffer of 1 + %lld zero bytes", HUGE_DIFF[idx]); }
+static void hm_case(uint64_t idx, void *ctx)
+{
+    long long big = HUGE_DIFF[idx] + 1; (void) ctx;
+    mc_set_shape("equal prefix, lengths far apart");
+    spif_mbuff_t a = spif_mbuff_new_from_ptr((spif_byteptr_t) "\0", 1), b = spif_mbuff_new();
+    void *blk = calloc((size_t) big, 1);
+    if (!blk) { spif_mbuff_del(a); spif_mbuff_del(b); return; }
+    b->buff = blk; b->len = (spif_memidx_t) big; b->size = (spif_memidx_t) big;          /* the object takes the block over (del frees it) */
+    int ab = cv(SPIF_OBJ_COMP(SPIF_OBJ(a), SPIF_OBJ(b))), ba = cv(SPIF_OBJ_COMP(SPIF_OBJ(b), SPIF_OBJ(a)));
+    if (ab != -1 || ba != 1) FAIL("mbuff.comp", "model:value-order", "equal prefix, lengths far apart", "comp(short,long)=%d comp(long,short)=%d: the shorter of two equal-prefix buffers orders first", ab, ba);
+    ab = cv(spif_mbuff_cmp(a, b)); ba = cv(spif_mbuff_cmp(b, a));
+    if (ab != -1 || ba != 1) FAIL("spif_mbuff_cmp", "model:value-order", "equal prefix, lengths far apart", "cmp(short,long)=%d cmp(long,short)=%d", ab, ba);
+    spif_mbuff_del(a); spif_mbuff_del(b);
+    mc_nontrivial();
+}
 int main(int argc, char **argv)
 {
     mc_init("C05", argc, argv);
     libast_debug_level = (unsigned) mc_dlevel();        /* --dlevel=N: the whole run at runtime debug level N (default 0) */
+    if (mc_arg("only", NULL) && !strcmp(mc_arg("only", ""), "huge")) { mc_e2_level("huge_mbuff", 1, 5, hm_case, hm_desc, NULL); return mc_finish(); }
     build_tables();
     mc_info("alphabet", "classes str, ustr, mbuff, objpair, tok, url, regexp and list/vector/map x {array, linked_list, dlinked_list}; per class a pool of reachable states (empty, slack after a shrinking splice, "
             "NULL placeholders, key-only pair, tokenizer before eval, URL after unparse ...); dup cases: %llu = states x (1 + 2 x mutators + 2 deletion orders); comparison cases: %llu pairs+triples; %d synthetic address pairs",
